@@ -27,6 +27,8 @@ Decided clause:
   R5.7 (E2 who-may-call) primitive-specific units of crypto_box / crypto_scalarmult / crypto_kx / crypto_secretbox never call the
        generic front end of their own operation: `crypto_box_beforenm` from the XChaCha20 box is the HSalsa20 derivation, so the
        one-shot and the precomputed API would disagree on the shared key.
+  R5.8 (E12) in the X25519 units (incl. the field arithmetic inlined from the private headers) no carry / shifted limb is identically
+       zero: a limb masked before its carry is taken makes the ladder's result wrong whenever that limb overflows.
   R5.5 (E12 known-bits) in the X25519 units `(hi << k) | lo` packings have provably bit-disjoint operands; the
        loosely reduced output limbs of the assembly ladder are therefore repacked with `+`.
 NOT decided: RFC 7748 values, the ladder arithmetic, the BLAKE2b values, seeded key-pair values.
@@ -89,6 +91,11 @@ def run(ctx, chk):
     # are only loosely reduced: repacking them needs `+`)
     from .. import knownbits
     knownbits.or_packing_rule(prog, chk, "R5.5", ("crypto_scalarmult/curve25519/",), floor=3)
+    # R5.8: no carry of the field arithmetic behind the portable ladder is identically zero (E12; `h0 &= mask; carry = h0 >> 51` never
+    # carries: the product is 2^51 short whenever limb 0 overflows)
+    knownbits.dead_carry_rule(prog, chk, "R5.8", ("crypto_scalarmult/curve25519/",), floor=20,
+                              allowed=[("_sodium_scalarmult_curve25519_sandy2x_fe_frombytes",
+                                        "sandy2x decoder: h9 has 25 bits by construction, `carry9 = h9 >> 25` is zero by design")])
     # R5.7: who-may-call: the box / scalarmult / kx / secretbox families never go through the generic front end of their own operation
     cm.layering_rule(prog, chk, "R5.7", ("crypto_box", "crypto_scalarmult", "crypto_kx", "crypto_secretbox", "crypto_core"), floor=50)
     # R5.6: "for every schedule": the key-agreement units keep no per-call state in static storage (E16)
